@@ -83,7 +83,11 @@ def impl_table(prog):
 
 def first_difference(a, b):
     """Human-readable first difference between two canonical JSON texts."""
-    ja, jb = json.loads(a), json.loads(b)
+    try:
+        ja, jb = json.loads(a), json.loads(b)
+    except ValueError:
+        i = next((i for i in range(min(len(a), len(b))) if a[i] != b[i]), min(len(a), len(b)))
+        return "text offset %d" % i, a[max(0, i - 60):i + 60], b[max(0, i - 60):i + 60]
 
     def walk(x, y, path):
         if type(x) != type(y):
